@@ -125,7 +125,7 @@ def gen_case(rng, main):
         # the default source (no --excitation-pulse: pulse 5), with or without a voltage
         ns = 0
         if rng.random() < 0.6:
-            v = rng.choice([1, complex(_d(rng, -5, 5, 3), _d(rng, -5, 5, 3)), complex(_d(rng, 0.1, 9, 3), 0)])
+            v = rng.choice([1, complex(_d(rng, -5, 5, 3), _d(rng, -5, 5, 3)), complex(_d(rng, 0.1, 9, 3), 0), rng.choice([1j, -1 + 0j, 0.6 + 0.8j])])
             opts.append('--excitation-voltage=%s' % (('%g%+gj' % (v.real, v.imag)) if isinstance(v, complex) else str(v)))
     for p in rng.sample(range(npulse), ns):
         if rng.random() < 0.4:
@@ -133,7 +133,8 @@ def gen_case(rng, main):
             opts.append('--excitation-pulse=%d,%d' % (m0.pulses[p].n + 1, g.tag))
         else:
             opts.append('--excitation-pulse=%d' % (p + 1))
-        v = rng.choice([1, 1.0, complex(_d(rng, -5, 5, 3), _d(rng, -5, 5, 3)), complex(_d(rng, 0.1, 9, 3), 0), complex(0, _d(rng, -3, 3, 2))])
+        v = rng.choice([1, 1.0, complex(_d(rng, -5, 5, 3), _d(rng, -5, 5, 3)), complex(_d(rng, 0.1, 9, 3), 0), complex(0, _d(rng, -3, 3, 2)),
+                        rng.choice([1j, -1 + 0j, 0.6 + 0.8j, -0.8 - 0.6j])])       # (the last: magnitude 1, not 1 V)
         opts.append('--excitation-voltage=%s' % (('%g%+gj' % (v.real, v.imag)) if isinstance(v, complex) else str(v)))
     # lumped loads, grouped by kind or interleaved, attached in any order
     loads = []
@@ -394,8 +395,12 @@ def c15(payload):
             err2 = io.StringIO()
             import contextlib
             so = io.StringIO()
-            with contextlib.redirect_stdout(so):
-                m2 = main(argv2, f_err=err2, return_mininec=True)
+            with contextlib.redirect_stdout(so), contextlib.redirect_stderr(so):
+                try:
+                    m2 = main(argv2, f_err=err2, return_mininec=True)
+                except SystemExit as e_:
+                    # the option parser itself refuses the written text (usage error)
+                    m2 = 2; err2.write('usage error (exit %r): ' % (e_.code,))
             if isinstance(m2, int):
                 bad.append('written option list is rejected: %s' % (err2.getvalue() + so.getvalue()).strip()[:300])
             else:
